@@ -15,10 +15,12 @@ package ip_set
 
 // LoadFromIPs (C13): every text is parsed and appended, in order; the first bad one stops the load.
 //@ func LoadFromIPs [C13]
-//@   requires l != nil
+//@   log loadFromIPs
+//@   requires l != nil && rep6(l)
 //@   modifies *
+//@   ensures rep6(l)
 //@   loop 0:
-//@     invariant l != nil && 0 <= it0
+//@     invariant l != nil && 0 <= it0 && rep6(l)
 //@     each iter_calls(parseNetipPrefix) == 1 && iter_arg(parseNetipPrefix, 0, 0) == s && iter_ret(parseNetipPrefix, 0, 1) == nil && iter_calls(listAppend) == 1 && iter_arg(listAppend, 0, 0) == l && len(iter_arg(listAppend, 0, 1)) == 1 && iter_atcall(listAppend, 0, iter_arg(listAppend, 0, 1)[0] == iter_ret(parseNetipPrefix, 0, 0))
 //@   ensures result == nil ==> it0 == len(ips)
 
@@ -31,3 +33,51 @@ package ip_set
 //@   loop 0:
 //@     invariant 0 <= it0 && it0 <= len(mg)
 //@     each iter_calls(MatchI) == 1 && !iter_ret(MatchI, 0) && iter_arg(MatchI, 0, 0) == m && iter_arg(MatchI, 0, 1) == addr
+
+// The file loaders (C13): every named file is read and loaded as rule text into the same list;
+// the list stays a list of valid masked IPv6 prefixes (the precondition of Sort).
+//@ func LoadFromFile [C13]
+//@   log loadFromFile
+//@   requires l != nil && rep6(l)
+//@   modifies *
+//@   ensures rep6(l)
+//@   ensures len(f) > 0 ==> calls(osReadFile) == 1 && arg(osReadFile, 0, 0) == f
+//@   ensures len(f) > 0 && ret(osReadFile, 0, 1) == nil ==> calls(netlistLoadFromReader) == 1 && arg(netlistLoadFromReader, 0, 0) == l && result == ret(netlistLoadFromReader, 0)
+//@   ensures len(f) > 0 && ret(osReadFile, 0, 1) != nil ==> result != nil
+//@ func LoadFromFiles [C13]
+//@   log loadFromFiles
+//@   requires l != nil && rep6(l)
+//@   modifies *
+//@   ensures rep6(l)
+//@   ensures result == nil ==> it0 == len(fs)
+//@   loop 0:
+//@     invariant l != nil && 0 <= it0 && rep6(l)
+//@     each iter_calls(loadFromFile) == 1 && iter_arg(loadFromFile, 0, 0) == f && iter_arg(loadFromFile, 0, 1) == l && iter_ret(loadFromFile, 0) == nil
+//@ func LoadFromIPsAndFiles [C13]
+//@   log loadFromIPsAndFiles
+//@   requires l != nil && rep6(l)
+//@   modifies *
+//@   ensures rep6(l)
+//@   ensures calls(loadFromIPs) == 1 && arg(loadFromIPs, 0, 0) == ips && arg(loadFromIPs, 0, 1) == l
+//@   ensures result == nil ==> calls(loadFromFiles) == 1 && arg(loadFromFiles, 0, 0) == fs && arg(loadFromFiles, 0, 1) == l && ret(loadFromIPs, 0) == nil && ret(loadFromFiles, 0) == nil
+
+// Other sets a composite set refers to (assumed: a provider hands out a matcher and changes nothing).
+//@ interface data_provider.IPMatcherProvider.GetIPMatcher
+//@   log GetIPMatcher
+//@   params self
+//@   ensures result != nil
+
+// NewIPSet (C13): a set is its own sorted list (if it has addresses) followed by the matchers of
+// the sets it refers to, in the configured order — one per reference, each appended to an array
+// that belongs to this set alone (never written into another set's array).
+//@ func NewIPSet [C13]
+//@   requires bp != nil && args != nil
+//@   modifies *
+//@   ensures result_1 == nil ==> result_0 != nil && fresh(result_0) && (result_0.mg.ref == 0 || fresh(result_0.mg.ref))
+//@   ensures result_1 == nil ==> calls(loadFromIPsAndFiles) == 1 && ret(loadFromIPsAndFiles, 0) == nil && arg(loadFromIPsAndFiles, 0, 0) == old(args.IPs) && arg(loadFromIPsAndFiles, 0, 1) == old(args.Files)
+//@   ensures result_1 == nil ==> calls(listSort) == 1 && arg(listSort, 0, 0) == arg(loadFromIPsAndFiles, 0, 2) && callpos(loadFromIPsAndFiles, 0) < callpos(listSort, 0)
+//@   ensures result_1 == nil ==> it0 == len(args.Sets)
+//@   loop 0:
+//@     invariant p != nil && fresh(p) && private(p) && bp != nil && 0 <= it0 && (p.mg.ref == 0 || fresh(p.mg.ref)) && calls(listSort) == 1
+//@     each iter_calls(GetIPMatcher) == 1 && len(p.mg) == athead(len(p.mg)) + 1 && p.mg[len(p.mg) - 1] == iter_ret(GetIPMatcher, 0)
+//@     each forall k int :: 0 <= k && k < athead(len(p.mg)) ==> p.mg[k] == athead(p.mg[k])
